@@ -3,7 +3,9 @@ Drivers: run the real penman (imported from /repo's working tree) on one case
 and record every observable as a JSON-able trace for the TLA+ judges.
 """
 import io
+import copy
 import os
+import pickle
 import signal
 import sys
 
@@ -470,10 +472,38 @@ def key_fn(m, key, seed=0):
     return getattr(m, KEYS[key])
 
 
-def tr_encode(tr, epi=None, xtop=None, topreq=None, model='default', mdl=None, op='configure', key='none', seed=0):
+def _edited_graph(tr, epi, xtop, prior, m):
+    """The graph (tr, epi, xtop) reached by an edit history on one live object: the object first holds the same triples with
+    variable *prior* spelled differently, is queried and encoded (whatever that answers), and is then edited in place - triple by
+    triple, the list keeps its length - into the graph asked for.  What the object answered before the edit is no argument of
+    what it is asked afterwards."""
+    ren = lambda x: (x + '_0') if x == prior else x      # noqa: E731
+    old = [[ren(a), b, ren(c) if isinstance(c, str) else c] for a, b, c in tr]
+    g = build_graph(old, epi, ren(xtop) if isinstance(xtop, str) else xtop)
+    for q in (g.variables, g.instances, g.edges, g.attributes, g.reentrancies):
+        guarded(q)
+    guarded(layout.configure, g, model=m)
+    guarded(m.errors, g)
+    new = build_graph(tr, epi, xtop)
+    for i, x in enumerate(new.triples):
+        g.triples[i] = x
+    g.epidata.clear()
+    g.epidata.update(new.epidata)
+    g._top = xtop
+    return g
+
+
+def tr_encode(tr, epi=None, xtop=None, topreq=None, model='default', mdl=None, op='configure', key='none', seed=0, prior=None, copied=None):
     m = get_model(model, mdl)
     warm_model(m, [t[1] for t in tr], 'tr_encode')
-    g = build_graph(tr, epi, xtop)
+    if prior is None:
+        g = build_graph(tr, epi, xtop)
+    else:
+        g = _edited_graph(tr, epi, xtop, prior, m)
+    if copied == 'deepcopy':      # what Graph.__or__ / __sub__ / reconfigure do to their operand: markers are equal objects, not the same ones
+        g = copy.deepcopy(g)
+    elif copied == 'pickle':      # a graph that crossed a process boundary
+        g = pickle.loads(pickle.dumps(g))
     before = ab.graph_to_json(g)
     t = _mfields({'kind': 'encode', 'g': before, 'topreq': ab.atom(topreq), 'op': op, 'key': key}, model, mdl)
     if op == 'configure':
@@ -590,9 +620,16 @@ def _rolefns(m, x):
             'inv_of_invd': bool(m.is_role_inverted(m.invert_role(x))), 'has': bool(m.has_role(x))}
 
 
-def tr_roles(role, model='default', mdl=None):
+def _end(x):
+    """An end of a triple as the judge sees it: written form and Python type (ends pass through the role algebra untouched)."""
+    return [ab.atom(x), type(x).__name__]
+
+
+def tr_roles(role, model='default', mdl=None, src='s', tgt='t'):
+    """Role algebra on *role*; the triple laws on (src, role, tgt) - the ends may be variables, strings, numbers or None."""
     m = get_model(model, mdl)
-    t = _mfields({'kind': 'roles', 'role': role, 'exc': ''}, model, mdl)
+    t = _mfields({'kind': 'roles', 'role': role, 'exc': '', 'src': _end(src), 'tgt': _end(tgt)}, model, mdl)
+    tr3 = lambda x: [_end(x[0]), x[1], _end(x[2])]   # noqa: E731
 
     def run():
         canon = m.canonicalize_role(role)
@@ -600,9 +637,9 @@ def tr_roles(role, model='default', mdl=None):
         t['canon2'] = m.canonicalize_role(canon)
         t['given'] = _rolefns(m, role)
         t['can'] = _rolefns(m, canon)
-        t['tinv'] = list(m.invert(('s', canon, 't')))
-        t['tdeinv'] = list(m.deinvert(('s', canon, 't')))
-        t['tcanon'] = list(m.canonicalize(('s', role, 't')))
+        t['tinv'] = tr3(m.invert((src, canon, tgt)))
+        t['tdeinv'] = tr3(m.deinvert((src, canon, tgt)))
+        t['tcanon'] = tr3(m.canonicalize((src, role, tgt)))
     ok, r = guarded(run)
     if not ok:
         t['exc'] = 'Hang' if isinstance(r, Hang) else excname(r)
@@ -1133,11 +1170,23 @@ def tr_dumps(texts, model='default', indent=-1, compact=False):
         back(name, s2, lambda s2=s2: penman.loads(s2, model=m))
     d = _clidir()
     path = os.path.join(d, 'dump.txt')
+    with open(path, 'w', encoding='utf-8') as f:      # the file exists and holds something else: dump replaces its content
+        f.write('# ::id stale\n(stale / content-of-an-earlier-dump)\n')
     ok, r = guarded(penman.dump, gs, path, model=m, indent=indent, compact=compact, encoding='utf-8')
     if ok:
         with open(path, encoding='utf-8', newline='') as f:
             s3 = f.read()
         back('dump(file)+load(file)', s3, lambda: penman.load(path, model=m, encoding='utf-8'))
+        fresh = os.path.join(d, 'dump-fresh.txt')      # and a path that does not exist yet is created
+        if os.path.exists(fresh):
+            os.remove(fresh)
+        ok, r = guarded(penman.dump, gs, fresh, model=m, indent=indent, compact=compact, encoding='utf-8')
+        if ok and os.path.exists(fresh):
+            with open(fresh, encoding='utf-8', newline='') as f:
+                s5 = f.read()
+            back('dump(new file)+load(file)', s5, lambda: penman.load(fresh, model=m, encoding='utf-8'))
+        else:
+            t['variants'].append({'how': 'dump(new file)', 'text': '', 'back': {'ok': False, 'exc': excname(r) if not ok else 'file-not-created', 'graphs': []}})
     else:
         t['variants'].append({'how': 'dump(file)', 'text': '', 'back': {'ok': False, 'exc': excname(r), 'graphs': []}})
     sio = io.StringIO()
